@@ -383,6 +383,22 @@ func c10Deviations(exprLen int) []c10Dev {
 			add("expression: set.contains(computed empty set)", func(t *c10Tok) { t.blocks[0].Checks[0].Queries[0].Exprs = [][]wire.Op{rev} })
 		}
 	}
+	// regular expressions: an ill-formed pattern (and a well-formed one) evaluated for several
+	// facts, in several checks and - through the operation panel - in several evaluations
+	for _, pat := range []string{"([", "a.c", "\\", "(?P<n>a)(?P<n>b)", "a{2000}{2000}"} {
+		pat := pat
+		add(fmt.Sprintf("matches(%q) in the last block's check and in a rule", pat), func(t *c10Tok) {
+			n := 0
+			for _, b := range t.blocks {
+				n += len(b.Symbols)
+			}
+			t.blocks[2].Symbols = append(t.blocks[2].Symbols, pat)
+			sv := wire.Op{Kind: wire.OValue, Term: wire.Term{Kind: wire.TString, U: uint64(1024 + n)}}
+			ex := []wire.Op{sv, sv, {Kind: wire.OBinary, HasCode: true, Code: 8}}
+			t.blocks[2].Checks[0].Queries[1].Exprs = [][]wire.Op{ex}
+			t.blocks[2].Checks = append(t.blocks[2].Checks, wire.Check{Queries: []wire.Rule{t.blocks[2].Checks[0].Queries[1]}})
+		})
+	}
 	add("1001 pushes in an expression", func(t *c10Tok) {
 		var ops []wire.Op
 		for i := 0; i < 1001; i++ {
@@ -457,6 +473,30 @@ func c10Deviations(exprLen int) []c10Dev {
 				}
 			})
 		})
+	}
+	// the same key lengths announced by a block whose own signature is valid (the holder of an
+	// unsealed token can produce these): the proof is then checked against a key of that length
+	for _, l := range []int{0, 31, 33} {
+		for _, sealed := range []bool{false, true} {
+			l, sealed := l, sealed
+			add(fmt.Sprintf("last block validly signed, announcing a next key of %d bytes, sealed=%v", l, sealed), func(t *c10Tok) {
+				t.post = append(t.post, func(e *wire.Envelope) {
+					_, prev := attackerKey()
+					last := &e.Authority
+					if n := len(e.Blocks); n > 0 {
+						last = &e.Blocks[n-1]
+						_, prev = wire.SeedKey(9500 + n - 1)
+					}
+					last.Key = make([]byte, l)
+					last.Sig = ed25519.Sign(prev, wire.BlockPayload(*last))
+					if sealed {
+						e.Proof = wire.Proof{Present: true, Final: make([]byte, 64)}
+					} else {
+						e.Proof = wire.Proof{Present: true, Secret: make([]byte, 32)}
+					}
+				})
+			})
+		}
 	}
 	for _, l := range []int{0, 63, 65} {
 		l := l
